@@ -17,41 +17,46 @@ static inline long RealVector_size(RealVector *v) { return v->size; }
 
 /* ---- additions for HamiltonianPart / FieldOperatorPart / DensityMatrixPart (pkgC) -------------------------------
  * RealMatrix = Eigen::Matrix<double,Dynamic,Dynamic,RowMajor> (pomerol's MatrixType/RealMatrixType are declared
- * with Eigen::RowMajor in Misc.h): coefficient (i,j) lives at data[i*cols+j].  No obligation depends on the storage
- * order; what matters is that distinct (i,j) inside the matrix are distinct cells.
- * ASSERTED: (i,j) inside the matrix at every coefficient access, col(j)/row(i) inside, resize with non-negative sizes.
+ * with Eigen::RowMajor in Misc.h).  Model: row-major storage with a FIXED leading dimension DENSE_MAXDIM, i.e.
+ * coefficient (i,j) lives at data[i*DENSE_MAXDIM + j].  No obligation depends on the storage layout; what matters is
+ * that distinct (i,j) inside the matrix are distinct cells of one object, and a constant stride keeps the index
+ * arithmetic linear (a symbolic stride `cols` makes every aliasing question a 64-bit multiplication for the solver).
+ * ASSERTED: (i,j) inside the matrix at every coefficient access, resize with non-negative sizes <= DENSE_MAXDIM.
  * ASSUMED: resize succeeds (Eigen throws std::bad_alloc otherwise; that exit is not modelled) and leaves the
- *   coefficients unspecified; setZero writes 0.0 to every coefficient; rows()/cols()/size() report the dimensions. */
-#define DENSE_MAXDIM (1L << 20)   /* largest dimension for which the model's allocation (8*rows*cols bytes) is representable */
+ *   coefficients unspecified; setZero writes 0.0 to every coefficient; rows()/cols() report the dimensions. */
+#define DENSE_MAXDIM (1L << 20)   /* largest dimension of the model (a 2^20 x 2^20 matrix of doubles is 8 TB) */
+#define DENSE_BYTES(rows) ((size_t)(rows) * (size_t)DENSE_MAXDIM * 8UL)
+#define DENSE_IDX(i, j) ((i) * DENSE_MAXDIM + (j))
 typedef struct RealMatrix { long rows, cols; double *data; } RealMatrix;
 static inline _Bool RealMatrix_wf(RealMatrix *m, long maxdim)
-{ return m->rows >= 0 && m->rows <= maxdim && m->cols >= 0 && m->cols <= maxdim &&
-         __CPROVER_is_fresh(m->data, m->rows * m->cols * sizeof(double)); }
+{ return m->rows >= 0 && m->rows <= maxdim && m->cols >= 0 && m->cols <= maxdim && maxdim <= DENSE_MAXDIM &&
+         __CPROVER_is_fresh(m->data, DENSE_BYTES(m->rows)); }
 static inline double *RealMatrix_call(RealMatrix *m, long i, long j)
 {
   __CPROVER_assert(0 <= i && i < m->rows, "Eigen matrix coefficient access: row inside the matrix");
   __CPROVER_assert(0 <= j && j < m->cols, "Eigen matrix coefficient access: column inside the matrix");
-  return &m->data[i * m->cols + j];
+  return &m->data[DENSE_IDX(i, j)];
 }
 static inline long RealMatrix_rows(RealMatrix *m) { return m->rows; }
 static inline long RealMatrix_cols(RealMatrix *m) { return m->cols; }
-void *malloc(size_t);
+void *malloc(size_t);   /* sizes are written `n * 8UL`, not `n * sizeof(double)`: with the sizeof form CBMC 6.11 types the object
+                            double[n] and __CPROVER_array_replace between two such objects loses the contents (spurious failures) */
 static inline void RealMatrix_resize(RealMatrix *m, long r, long c)
 {
   __CPROVER_assert(r >= 0 && c >= 0, "Eigen resize: non-negative dimensions");
   __CPROVER_assert(r <= DENSE_MAXDIM && c <= DENSE_MAXDIM, "dense model: dimension within DENSE_MAXDIM");
   m->rows = r; m->cols = c;
-  m->data = malloc((size_t)r * (size_t)c * sizeof(double));
+  m->data = malloc(DENSE_BYTES(r));
   __CPROVER_assume(m->data != (double *)0);   /* ASSUMED: allocation succeeds */
 }
 static inline void RealMatrix_setZero(RealMatrix *m)
-{ if (m->rows > 0 && m->cols > 0) __CPROVER_array_set(m->data, 0.0); }
+{ if (m->rows > 0) __CPROVER_array_set(m->data, 0.0); }
 static inline void RealVector_resize(RealVector *v, long n)
 {
   __CPROVER_assert(n >= 0, "Eigen resize: non-negative size");
   __CPROVER_assert(n <= DENSE_MAXDIM * DENSE_MAXDIM, "dense model: size representable");
   v->size = n;
-  v->data = malloc((size_t)n * sizeof(double));
+  v->data = malloc((size_t)n * 8UL);
   __CPROVER_assume(v->data != (double *)0);   /* ASSUMED: allocation succeeds */
 }
 /* `v << x;` (CommaInitializer with ONE value): Eigen asserts on destruction of the initializer that the whole
@@ -60,5 +65,76 @@ static inline void RealVector_shl(RealVector *v, const double *x)
 {
   __CPROVER_assert(v->size == 1, "Eigen comma initializer with one value: the vector has exactly one coefficient");
   v->data[0] = *x;
+  REACH("comma-init");
+}
+/* `dst = src;` (Eigen dense assignment): dst takes src's dimensions and a copy of every coefficient. */
+static inline void RealMatrix_assign(RealMatrix *dst, const RealMatrix *src)
+{
+  dst->rows = src->rows; dst->cols = src->cols;
+  dst->data = malloc(DENSE_BYTES(src->rows));
+  __CPROVER_assume(dst->data != (double *)0);   /* ASSUMED: allocation succeeds */
+  if (src->rows > 0) __CPROVER_array_replace(dst->data, src->data);
+}
+static inline void RealVector_assign(RealVector *dst, const RealVector *src)
+{
+  dst->size = src->size;
+  dst->data = malloc((size_t)src->size * 8UL);
+  __CPROVER_assume(dst->data != (double *)0);   /* ASSUMED: allocation succeeds */
+  if (src->size > 0) __CPROVER_array_replace(dst->data, src->data);
+}
+/* minCoeff(): ASSERTED non-empty (Eigen: "you are using an empty matrix").
+ * With NaN coefficients Eigen's result depends on the vectorisation, so the contract is given for vectors WITHOUT NaN:
+ * the caller announces that hypothesis with the ghost flag dense_g_nonan, and it is CHECKED here point-wise at the
+ * arbitrary ghost position dense_g_k (arbitrary => checked for every coefficient).
+ * ASSUMED then: the result is one of the coefficients (witness position w) and not greater than any coefficient
+ * (instantiated at dense_g_k).  dense_g_minpos is a prophecy of w for the FIRST call in a run (harnesses leave it
+ * unconstrained, so it restricts nothing); it lets a caller instantiate its own invariants at the witness. */
+long dense_g_k, dense_g_minpos; _Bool dense_g_nonan, dense_g_minpos_used;
+static inline double RealVector_minCoeff(RealVector *v)
+{
+  __CPROVER_assert(v->size > 0, "Eigen minCoeff: the vector is not empty");
+  double r = nondet_double();
+  if (dense_g_nonan) {
+    _Bool k_in = 0 <= dense_g_k && dense_g_k < v->size;
+    if (k_in) __CPROVER_assert(v->data[dense_g_k] == v->data[dense_g_k], "minCoeff: the caller's no-NaN hypothesis holds at the ghost position");
+    long w = nondet_long();
+    __CPROVER_assume(0 <= w && w < v->size && D_SAME(r, v->data[w]));
+    if (!dense_g_minpos_used) { __CPROVER_assume(w == dense_g_minpos); dense_g_minpos_used = 1; }
+    if (k_in) __CPROVER_assume(D_LE(r, v->data[dense_g_k]));
+  }
+  return r;
+}
+/* RealVectorType v(n): n uninitialised coefficients */
+static inline RealVector RealVector_ctor1(unsigned long n)
+{
+  RealVector v;
+  __CPROVER_assert(n <= (unsigned long)(DENSE_MAXDIM * DENSE_MAXDIM), "dense model: size representable");
+  v.size = (long)n;
+  v.data = malloc((size_t)n * 8UL);
+  __CPROVER_assume(v.data != (double *)0);   /* ASSUMED: allocation succeeds */
+  return v;
+}
+/* v(i, j) on a column vector: j must be 0 */
+static inline double *RealVector_call2(RealVector *v, long i, long j)
+{
+  __CPROVER_assert(0 <= i && i < v->size && j == 0, "Eigen vector coefficient access (i,0) inside the vector");
+  return &v->data[i];
+}
+static inline double *RealVector_data(RealVector *v) { return v->data; }
+/* std::copy(first, last, dst) on doubles.  ASSERTED: [first,last) is a readable range of one object, [dst,dst+n) is
+ * writable.  ASSUMED: dst[k] = first[k] for 0 <= k < n -- kept for the ghost offset dense_g_copyk, every other element
+ * of the destination range is havocked (over-approximation). */
+long dense_g_copyk;
+static inline double *dense_copy(const double *first, const double *last, double *dst)
+{
+  __CPROVER_assert(__CPROVER_same_object(first, last) && first <= last, "std::copy: [first,last) is a range of one object");
+  long n = last - first;
+  __CPROVER_assert(n == 0 || __CPROVER_r_ok(first, (size_t)n * 8UL), "std::copy: source range readable");
+  __CPROVER_assert(n == 0 || __CPROVER_w_ok(dst, (size_t)n * 8UL), "std::copy: destination range writable");
+  _Bool has = 0 <= dense_g_copyk && dense_g_copyk < n;
+  double gv = has ? first[dense_g_copyk] : 0.0;
+  if (n > 0) __CPROVER_havoc_slice(dst, (size_t)n * 8UL);
+  if (has) dst[dense_g_copyk] = gv;
+  return dst + n;
 }
 #endif
